@@ -386,6 +386,7 @@ pub fn jobs(pn: u32, tier: Tier) -> Vec<Job> {
                 m.snap = false;
                 v.push(job("key-tree-large", random(key_cases(id, m), 1_500), Rule::default(), &[]));
             }
+            v.push(job("key-tree-local", random(key_local_cases(id, "tree", [30, 12, 12, 12, 0, 16, 0, 0], false), n(2_000, 50_000)), Rule::any("a history whose operations all address one window of 6-16 adjacent keys of a tree of 20-250 entries", &["local_window"]), &[]));
             v.push(job("key-tree-look-churn-look", JobKind::Fixed { cases: key_period_cases(id, "tree", !q), stop_on_first: false }, Rule::any("two looks at one key with the slot it was found in turned over in between", &["sparse_observations", "reinsert_expired_key", "lookup_after_removal", "query_with_expired_copies"]), &[]));
             v.push(job("key-tree-sparse-observations", random(key_sparse_cases(id, "tree"), n(400, 12_000)), Rule::any("a history of >=600 operations in which observations are >=100 operations apart", &["sparse_observations"]), &["sparse_observations"]));
             v.push(job("key-tree-deep", JobKind::Fixed { cases: key_deep_cases(id, !q, true, false), stop_on_first: false }, Rule::any("a structure with a root-to-leaf path of >= 33 nodes", &["height_ge_33"]), &[]));
@@ -420,6 +421,10 @@ pub fn jobs(pn: u32, tier: Tier) -> Vec<Job> {
                 v.push(job(&format!("{}-tree-deep", fam), JobKind::Fixed { cases: ord_deep_cases(id, fam, "u64", !q), stop_on_first: false }, Rule::any("a structure with a root-to-leaf path of >= 33 nodes", &["height_ge_33"]), &[]));
             }
             v.push(job("key-tree-deep", JobKind::Fixed { cases: key_deep_cases(id, !q, true, true), stop_on_first: false }, Rule::any("a structure with a root-to-leaf path of >= 33 nodes", &["height_ge_33"]), &[]));
+            for (fam, vals) in [("map", vec!["u64", "string"]), ("set", vec!["u64", "bare"])] {
+                v.push(job(&format!("{}-tree-local", fam), random(ord_local_cases(id, fam, "tree", vals, [30, 30, 2, 0, 0, 4, 2, 10, 0, 0]), n(1_500, 40_000)), Rule::any("a history whose operations all address one window of 6-16 adjacent keys of a tree of 20-250 entries", &["local_window"]), &[]));
+            }
+            v.push(job("key-tree-local", random(key_local_cases(id, "tree", [30, 8, 8, 8, 8, 18, 0, 0], true), n(1_500, 40_000)), Rule::any("a history whose operations all address one window of 6-16 adjacent keys of a tree of 20-250 entries", &["local_window"]), &[]));
             let krule = Rule::all("history with a lazy removal of a two-children node and of a black leaf", &["rm_two_children", "rm_black_leaf"]);
             v.push(job("key-tree-churn", random(key_cases(id, key_mix("tree", &[8, 16, 64], 12, 4, [40, 8, 8, 8, 8, 22, 1, 1], 0..=300, Some(0..=4))), n(6_000, 150_000)), krule.clone(), &["rm_two_children", "rm_black_leaf", "rm_red_leaf", "rm_one_child", "rotation_or_relink"]));
             v.push(job("key-tree-big", random(key_cases(id, key_mix("tree", &[300, 3000], 1500, 30, [50, 6, 6, 6, 6, 16, 0, 1], 300..=1500, Some(0..=600))), n(150, 4_000)), krule.clone(), &["height_ge_6", "arena_growth_x2"]));
@@ -462,6 +467,7 @@ pub fn jobs(pn: u32, tier: Tier) -> Vec<Job> {
             v.push(job(&format!("{}-tree-big", fam), random(ord_cases(id, ord_mix(fam, "tree", &vals, &[300, 3000], w, 300..=1500, 3)), n(150, 4_000)), rule.clone(), &["height_ge_6"]));
             v.push(job(&format!("{}-tree-big-clear-big", fam), random(ord_clear_cases_sized(id, fam, "tree", vals.clone(), vec![300, 3000], 100..=500), n(100, 3_000)), rule.clone(), &[]));
             v.push(job(&format!("{}-tree-insertion-runs", fam), random(ord_runs_cases(id, fam, "tree", vals.clone(), [0, 6, 4, 0, 2, 0, 1, 0, 0, 0]), n(600, 15_000)), rule.clone(), &["run_ascending", "run_descending"]));
+            v.push(job(&format!("{}-tree-local", fam), random(ord_local_cases(id, fam, "tree", vals.clone(), [30, 26, 20, 0, 0, 4, 4, 6, 0, 0]), n(2_000, 50_000)), Rule::any("a history whose operations all address one window of 6-16 adjacent keys of a tree of 20-250 entries", &["local_window"]), &[]));
             v.push(job(&format!("{}-tree-look-churn-look", fam), JobKind::Fixed { cases: ord_period_cases(id, fam, "tree", !q), stop_on_first: false }, Rule::any("two looks at one key with the slot it was found in turned over in between", &["sparse_observations", "reinsert_expired_key", "lookup_after_removal", "query_with_expired_copies"]), &[]));
             v.push(job(&format!("{}-tree-sparse-observations", fam), random(ord_sparse_cases(id, fam, "tree", vals.clone()), n(400, 12_000)), Rule::any("a history of >=600 operations in which observations are >=100 operations apart", &["sparse_observations"]), &["sparse_observations"]));
             v.push(job(&format!("{}-tree-deep", fam), JobKind::Fixed { cases: ord_deep_cases(id, fam, "u64", !q), stop_on_first: false }, Rule::any("a structure with a root-to-leaf path of >= 33 nodes", &["height_ge_33"]), &[]));
@@ -480,6 +486,7 @@ pub fn jobs(pn: u32, tier: Tier) -> Vec<Job> {
             v.push(job("key-tree-medium", random(key_cases(id, key_mix("tree", &[16, 64], 30, 6, [34, 4, 4, 4, 34, 16, 1, 1], 0..=200, None)), n(4_000, 100_000)), rule.clone(), &req));
             v.push(job("key-tree-big", random(key_cases(id, key_mix("tree", &[300, 3000], 1500, 30, [50, 3, 3, 3, 24, 16, 0, 1], 300..=1500, None)), n(150, 4_000)), rule.clone(), &["height_ge_6", "get_depth_ge_3"]));
             v.push(job("key-tree-big-clear-big", random(key_clear_cases_sized(id, "tree", vec![300, 3000], 1500, 30, 100..=500), n(100, 3_000)), rule.clone(), &[]));
+            v.push(job("key-tree-local", random(key_local_cases(id, "tree", [30, 4, 4, 4, 30, 16, 0, 0], false), n(2_000, 50_000)), Rule::any("a history whose operations all address one window of 6-16 adjacent keys of a tree of 20-250 entries", &["local_window"]), &[]));
             v.push(job("key-tree-look-churn-look", JobKind::Fixed { cases: key_period_cases(id, "tree", !q), stop_on_first: false }, Rule::any("two looks at one key with the slot it was found in turned over in between", &["sparse_observations", "reinsert_expired_key", "lookup_after_removal", "query_with_expired_copies"]), &[]));
             v.push(job("key-tree-sparse-observations", random(key_sparse_cases(id, "tree"), n(600, 16_000)), Rule::any("a history of >=600 operations in which observations are >=100 operations apart", &["sparse_observations"]), &["sparse_observations"]));
             v.push(job("key-tree-deep", JobKind::Fixed { cases: key_deep_cases(id, !q, true, false), stop_on_first: false }, Rule::any("a structure with a root-to-leaf path of >= 33 nodes", &["height_ge_33"]), &[]));
@@ -495,6 +502,8 @@ pub fn jobs(pn: u32, tier: Tier) -> Vec<Job> {
             v.push(job("key-export-big", random(key_cases(id, key_mix("tree", &[300, 3000], 1500, 30, [50, 5, 5, 5, 5, 16, 0, 1], 300..=1500, Some(0..=1600))), n(150, 4_000)), rule.clone(), &["height_ge_6", "export_after_free"]));
             v.push(job("key-export-big-clear-big", random(key_clear_cases_sized(id, "tree", vec![300, 3000], 1500, 30, 100..=500), n(100, 3_000)), rule.clone(), &[]));
             v.push(job("key-export-full-universe-mass-expiry", random(key_full_universe_cases(id, "tree"), n(4_000, 100_000)), Rule::any("export of a tree in which >=1 expired entry is still stored", &["export_expired_stored"]), &[]));
+            v.push(job("key-export-local", random(key_local_cases(id, "tree", [34, 7, 7, 7, 7, 20, 0, 0], true), n(2_000, 50_000)), Rule::any("a history whose operations all address one window of 6-16 adjacent keys of a tree of 20-250 entries", &["local_window"]), &[]));
+            v.push(job("key-export-after-sweep", JobKind::Fixed { cases: key_sweep_cases(id, !q, true), stop_on_first: false }, Rule::any("a sweep that releases the slots of an exactly full arena one by one", &["bulk"]), &[]));
             v.push(job("key-export-deep", JobKind::Fixed { cases: key_deep_cases(id, !q, false, true), stop_on_first: false }, Rule::any("a structure with a root-to-leaf path of >= 33 nodes", &["height_ge_33"]), &[]));
             v.push(job("key-export-huge", random(key_huge_cases(id, "both", [30, 6, 6, 6, 6, 18, 0, 1], 270_000, true), n(3, 60)), Rule::any("a structure of >=4096 entries built by a bulk fill", &["stored_ge_4096"]), &["stored_ge_4096"]));
             v.push(job("key-export-enum", JobKind::Enumerate { spec: if q { key_enum(id, "tree", 3, 2, 3, true, true, 400_000) } else { key_enum(id, "tree", 4, 2, 3, true, true, 1_500_000) } }, rule.clone(), &[]));
@@ -509,6 +518,7 @@ pub fn jobs(pn: u32, tier: Tier) -> Vec<Job> {
                 v.push(job(&format!("{}-tree-handles-big", fam), random(ord_cases(id, ord_mix(fam, "tree", &vals, &[300, 3000], [40, 14, 2, 0, 0, 20, 8, 12, 0, 0], 300..=1500, 3)), n(120, 3_000)), rule.clone(), &["height_ge_6"]));
                 v.push(job(&format!("{}-tree-insertion-runs", fam), random(ord_runs_cases(id, fam, "tree", vals.clone(), [0, 2, 0, 0, 1, 6, 2, 2, 0, 0]), n(600, 15_000)), rule.clone(), &["run_ascending", "run_descending"]));
                 v.push(job(&format!("{}-tree-big-clear-big", fam), random(ord_clear_cases_sized(id, fam, "tree", vals.clone(), vec![300, 3000], 100..=500), n(80, 2_000)), rule.clone(), &[]));
+                v.push(job(&format!("{}-tree-local", fam), random(ord_local_cases(id, fam, "tree", vec!["u64", "string"], [30, 12, 2, 0, 0, 24, 10, 14, 0, 0]), n(2_000, 50_000)), Rule::any("a history whose operations all address one window of 6-16 adjacent keys of a tree of 20-250 entries", &["local_window"]), &[]));
                 v.push(job(&format!("{}-tree-look-churn-look", fam), JobKind::Fixed { cases: ord_period_cases(id, fam, "tree", !q), stop_on_first: false }, Rule::any("two looks at one key with the slot it was found in turned over in between", &["sparse_observations", "reinsert_expired_key", "lookup_after_removal", "query_with_expired_copies"]), &[]));
                 v.push(job(&format!("{}-tree-sparse-observations", fam), random(ord_sparse_cases(id, fam, "tree", vec!["u64", "string"]), n(300, 8_000)), Rule::any("a history of >=600 operations in which observations are >=100 operations apart", &["sparse_observations"]), &["sparse_observations"]));
                 v.push(job(&format!("{}-tree-deep", fam), JobKind::Fixed { cases: ord_deep_cases(id, fam, "u64", !q), stop_on_first: false }, Rule::any("a structure with a root-to-leaf path of >= 33 nodes", &["height_ge_33"]), &[]));
@@ -529,6 +539,7 @@ pub fn jobs(pn: u32, tier: Tier) -> Vec<Job> {
             if !q {
                 v.push(job("set-tree-steps-large", random(ord_cases(id, ord_mix("set", "tree", &["u64", "bare"], &[4096], [60, 20, 0, 0, 0, 0, 0, 4, 10, 1], 0..=3000, 3)), 400), rule.clone(), &[]));
             }
+            v.push(job("set-tree-local", random(ord_local_cases(id, "set", "tree", vec!["u64", "bare", "big"], [30, 20, 0, 0, 0, 4, 0, 8, 30, 0]), n(2_000, 50_000)), Rule::any("a history whose operations all address one window of 6-16 adjacent keys of a tree of 20-250 entries", &["local_window"]), &[]));
             v.push(job("set-tree-deep", JobKind::Fixed { cases: ord_deep_cases(id, "set", "u64", !q), stop_on_first: false }, Rule::any("a structure with a root-to-leaf path of >= 33 nodes", &["height_ge_33"]), &[]));
             v.push(job("set-tree-huge", random(ord_huge_cases(id, "set", "tree", vec!["u64", "bare"], [30, 18, 0, 0, 0, 0, 0, 6, 20, 1], 270_000), n(3, 50)), Rule::any("a structure of >=4096 entries built by a bulk fill", &["stored_ge_4096"]), &["stored_ge_4096"]));
             v.push(job("set-tree-enum", JobKind::Enumerate { spec: ord_enum(id, "set", "tree", "u64", if q { 6 } else { 8 }, true, &[O_STEPALL, O_WALK], 2_000_000) }, rule, &[]));
@@ -559,6 +570,12 @@ pub fn jobs(pn: u32, tier: Tier) -> Vec<Job> {
                 v.push(job(&format!("map-{}-big-clear-big", coll), random(ord_clear_cases_sized(id, "map", coll, vec!["u64", "string"], vec![300, 3000], 100..=500), n(60, 2_000)), rule.clone(), &[]));
                 v.push(job(&format!("set-{}-big-clear-big", coll), random(ord_clear_cases_sized(id, "set", coll, vec!["u64", "string"], vec![300, 3000], 100..=500), n(60, 2_000)), rule.clone(), &[]));
             }
+            for coll in ["tree", "list"] {
+                v.push(job(&format!("key-{}-local", coll), random(key_local_cases(id, coll, [30, 8, 8, 8, 10, 18, 0, 0], true), n(1_000, 30_000)), rule.clone(), &[]));
+                v.push(job(&format!("map-{}-local", coll), random(ord_local_cases(id, "map", coll, vec!["u64", "string"], [30, 18, 8, 0, 0, 10, 8, 10, 0, 0]), n(1_000, 30_000)), rule.clone(), &[]));
+                v.push(job(&format!("set-{}-local", coll), random(ord_local_cases(id, "set", coll, vec!["u64", "string"], [30, 18, 6, 0, 0, 8, 6, 8, 14, 0]), n(1_000, 30_000)), rule.clone(), &[]));
+            }
+            v.push(job("key-tree-sweep", JobKind::Fixed { cases: key_sweep_cases(id, !q, true), stop_on_first: false }, rule.clone(), &[]));
             v.push(job("key-tree-full-universe-mass-expiry", random(key_full_universe_cases(id, "tree"), n(3_000, 80_000)), rule.clone(), &[]));
             v.push(job("key-list-full-universe-mass-expiry", random(key_full_universe_cases(id, "list"), n(1_000, 30_000)), rule.clone(), &[]));
             v.push(job("key-tree-deep", JobKind::Fixed { cases: key_deep_cases(id, !q, true, true), stop_on_first: false }, Rule::any("a structure with a root-to-leaf path of >= 33 nodes", &["height_ge_33"]), &[]));
@@ -605,6 +622,10 @@ pub fn jobs(pn: u32, tier: Tier) -> Vec<Job> {
                 v.push(job(&format!("{}-tree-huge", fam), random(ord_huge_cases(id, fam, "tree", vec!["u64"], w, 270_000), n(2, 40)), Rule::any("a structure of >=4096 entries built by a bulk fill", &["stored_ge_4096"]), &["stored_ge_4096"]));
             }
             v.push(job("key-tree-huge", random(key_huge_cases(id, "tree", [40, 6, 6, 6, 6, 20, 0, 0], 270_000, true), n(2, 40)), Rule::any("a structure of >=4096 entries built by a bulk fill", &["stored_ge_4096"]), &["stored_ge_4096"]));
+            for fam in ["map", "set"] {
+                v.push(job(&format!("{}-tree-local", fam), random(ord_local_cases(id, fam, "tree", vec!["u64"], [36, 30, 1, 0, 0, 2, 0, 12, 0, 0]), n(1_500, 40_000)), Rule::any("a history whose operations all address one window of 6-16 adjacent keys of a tree of 20-250 entries", &["local_window"]), &[]));
+            }
+            v.push(job("key-tree-local", random(key_local_cases(id, "tree", [40, 6, 6, 6, 6, 22, 0, 0], true), n(1_500, 40_000)), Rule::any("a history whose operations all address one window of 6-16 adjacent keys of a tree of 20-250 entries", &["local_window"]), &[]));
             v.push(job("key-tree-enum", JobKind::Enumerate { spec: key_enum(id, "tree", 3, 2, if q { 2 } else { 3 }, true, true, 1_500_000) }, Rule::any("transition with a lazy removal", &["q_lazy_removal"]), &[]));
         }
         12 => {
@@ -653,6 +674,9 @@ pub fn jobs(pn: u32, tier: Tier) -> Vec<Job> {
             v.push(job("set-list", random(ord_cases(id, ord_mix("set", "list", &["u64", "string", "wide"], &[4, 8, 16, 64], sw, 0..=120, 1)), n(8_000, 200_000)), srule.clone(), &["step_single_entry", "step_inner", "full_walk"]));
             v.push(job("map-list-big", random(ord_cases(id, ord_mix("map", "list", &["u64", "string"], &[300, 3000], mw, 300..=1500, 3)), n(100, 3_000)), Rule::default(), &[]));
             v.push(job("set-list-big", random(ord_cases(id, ord_mix("set", "list", &["u64", "string"], &[300, 3000], sw, 300..=1500, 3)), n(100, 3_000)), Rule::default(), &[]));
+            v.push(job("key-list-local", random(key_local_cases(id, "list", [30, 8, 8, 8, 10, 18, 0, 0], true), n(1_500, 40_000)), Rule::any("a history whose operations all address one window of 6-16 adjacent keys of a tree of 20-250 entries", &["local_window"]), &[]));
+            v.push(job("map-list-local", random(ord_local_cases(id, "map", "list", vec!["u64", "string"], [30, 16, 12, 0, 0, 14, 8, 10, 0, 0]), n(1_000, 30_000)), Rule::any("a history whose operations all address one window of 6-16 adjacent keys of a tree of 20-250 entries", &["local_window"]), &[]));
+            v.push(job("set-list-local", random(ord_local_cases(id, "set", "list", vec!["u64", "string"], [30, 14, 8, 0, 0, 10, 6, 8, 18, 0]), n(1_000, 30_000)), Rule::any("a history whose operations all address one window of 6-16 adjacent keys of a tree of 20-250 entries", &["local_window"]), &[]));
             v.push(job("key-list-look-churn-look", JobKind::Fixed { cases: key_period_cases(id, "list", !q), stop_on_first: false }, Rule::any("two looks at one key with the slot it was found in turned over in between", &["sparse_observations", "reinsert_expired_key", "lookup_after_removal", "query_with_expired_copies"]), &[]));
             v.push(job("map-list-look-churn-look", JobKind::Fixed { cases: ord_period_cases(id, "map", "list", !q), stop_on_first: false }, Rule::any("two looks at one key with the slot it was found in turned over in between", &["sparse_observations", "reinsert_expired_key", "lookup_after_removal", "query_with_expired_copies"]), &[]));
             v.push(job("set-list-look-churn-look", JobKind::Fixed { cases: ord_period_cases(id, "set", "list", !q), stop_on_first: false }, Rule::any("two looks at one key with the slot it was found in turned over in between", &["sparse_observations", "reinsert_expired_key", "lookup_after_removal", "query_with_expired_copies"]), &[]));
@@ -705,6 +729,7 @@ pub fn jobs(pn: u32, tier: Tier) -> Vec<Job> {
                 v.push(job(&format!("{}-tree-held-handles", fam), random(ord_cases(id, ord_mix(fam, "tree", &vals, &[16, 64, 300, 2000], w, 0..=150, 1)), n(8_000, 200_000)), rule.clone(), &["held_ge_2_across_insert"]));
                 v.push(job(&format!("{}-tree-held-handles-big", fam), random(ord_cases(id, ord_mix(fam, "tree", &vals, &[1000, 5000], [70, 2, 4, 0, 0, 4, 2, 1, 0, 0], 200..=700, 1)), n(100, 3_000)), rule.clone(), &["height_ge_6"]));
                 v.push(job(&format!("{}-tree-insertion-runs", fam), random(ord_runs_cases(id, fam, "tree", vals.clone(), [2, 0, 1, 0, 1, 1, 0, 0, 0, 0]), n(600, 15_000)), rule.clone(), &["run_ascending", "run_descending"]));
+                v.push(job(&format!("{}-tree-local", fam), random(ord_local_cases(id, fam, "tree", vec!["u64", "string"], [40, 26, 4, 0, 0, 6, 2, 6, 0, 0]), n(3_000, 80_000)), Rule::any("a history whose operations all address one window of 6-16 adjacent keys of a tree of 20-250 entries", &["local_window"]), &[]));
                 v.push(job(&format!("{}-tree-deep", fam), JobKind::Fixed { cases: ord_deep_cases(id, fam, "u64", !q), stop_on_first: false }, Rule::any("a structure with a root-to-leaf path of >= 33 nodes", &["height_ge_33"]), &[]));
                 v.push(job(&format!("{}-tree-huge", fam), random(ord_huge_cases(id, fam, "tree", vec!["u64", "string"], [60, 6, 10, 0, 0, 6, 2, 2, 0, 0], 270_000), n(3, 50)), Rule::any("a structure of >=4096 entries built by a bulk fill", &["stored_ge_4096"]), &["stored_ge_4096"]));
                 v.push(job(&format!("{}-tree-enum", fam), JobKind::Enumerate { spec: ord_enum(id, fam, "tree", "u64", if q { 6 } else { 8 }, false, &[], 2_000_000) }, rule.clone(), &[]));
@@ -736,6 +761,7 @@ pub fn jobs(pn: u32, tier: Tier) -> Vec<Job> {
             v.push(job("export-size-ladder", JobKind::Fixed { cases: export_ladder(id, !q), stop_on_first: true }, rule.clone(), &["export_cap_ge_100"]));
             v.push(job("export-random-tree", random(key_cases(id, key_mix("tree", &[16, 64, 400], 40, 6, [60, 4, 4, 4, 4, 16, 1, 0], 0..=600, Some(0..=30))), n(3_000, 80_000)), rule.clone(), &[]));
             v.push(job("export-full-universe-mass-expiry", random(key_full_universe_cases(id, "tree"), n(4_000, 100_000)), Rule::any("export of a tree in which >=1 expired entry is still stored", &["export_expired_stored"]), &[]));
+            v.push(job("export-after-sweep", JobKind::Fixed { cases: key_sweep_cases(id, !q, true), stop_on_first: false }, Rule::any("a sweep that releases the slots of an exactly full arena one by one", &["bulk"]), &[]));
             v.push(job("export-deep", JobKind::Fixed { cases: key_deep_cases(id, !q, true, true), stop_on_first: false }, Rule::any("a structure with a root-to-leaf path of >= 33 nodes", &["height_ge_33"]), &[]));
             v.push(job("export-huge", random(key_huge_cases(id, "tree", [40, 4, 4, 4, 4, 16, 0, 0], 270_000, true), n(3, 60)), Rule::any("a structure of >=4096 entries built by a bulk fill", &["stored_ge_4096"]), &["stored_ge_4096"]));
             v.push(job("export-random-list", random(key_cases(id, key_mix("list", &[16, 64, 400], 40, 6, [60, 4, 4, 4, 4, 16, 1, 0], 0..=600, Some(0..=30))), n(1_500, 40_000)), rule, &[]));
@@ -751,6 +777,8 @@ pub fn jobs(pn: u32, tier: Tier) -> Vec<Job> {
             v.push(job("key-tree-big", random(key_cases(id, key_mix("tree", &[300, 3000], 1500, 30, [50, 6, 6, 6, 8, 16, 0, 1], 300..=1500, None)), n(120, 3_000)), rule.clone(), &["height_ge_6"]));
             v.push(job("key-tree-big-clear-big", random(key_clear_cases_sized(id, "tree", vec![300, 3000], 1500, 30, 100..=500), n(80, 2_000)), rule.clone(), &[]));
             v.push(job("key-list-big", random(key_cases(id, key_mix("list", &[300, 3000], 1500, 30, [50, 6, 6, 6, 8, 16, 0, 1], 300..=1500, None)), n(80, 2_000)), rule.clone(), &[]));
+            v.push(job("key-tree-local", random(key_local_cases(id, "tree", [30, 8, 8, 8, 10, 16, 0, 0], false), n(1_500, 40_000)), Rule::any("a history whose operations all address one window of 6-16 adjacent keys of a tree of 20-250 entries", &["local_window"]), &[]));
+            v.push(job("key-list-local", random(key_local_cases(id, "list", [30, 8, 8, 8, 10, 16, 0, 0], false), n(800, 20_000)), Rule::any("a history whose operations all address one window of 6-16 adjacent keys of a tree of 20-250 entries", &["local_window"]), &[]));
             v.push(job("key-tree-look-churn-look", JobKind::Fixed { cases: key_period_cases(id, "tree", !q), stop_on_first: false }, Rule::any("two looks at one key with the slot it was found in turned over in between", &["sparse_observations", "reinsert_expired_key", "lookup_after_removal", "query_with_expired_copies"]), &[]));
             v.push(job("key-list-look-churn-look", JobKind::Fixed { cases: key_period_cases(id, "list", !q), stop_on_first: false }, Rule::any("two looks at one key with the slot it was found in turned over in between", &["sparse_observations", "reinsert_expired_key", "lookup_after_removal", "query_with_expired_copies"]), &[]));
             v.push(job("key-tree-sparse-observations", random(key_sparse_cases(id, "tree"), n(300, 8_000)), Rule::any("a history of >=600 operations in which observations are >=100 operations apart", &["sparse_observations"]), &["sparse_observations"]));
@@ -1153,17 +1181,51 @@ fn seg_period_cases(prop: &str, thorough: bool) -> Vec<Case> {
     v
 }
 
+/// A sweep: three long-lived entries, then n entries that expire one per tick in insertion (= slot)
+/// order; at every tick the entry that has just ended is looked up (and lazily removed), so the slots
+/// are released one by one in ascending order up to the last slot of an exactly full arena; export.
+fn key_sweep_cases(prop: &str, thorough: bool, export: bool) -> Vec<Case> {
+    let mut v = Vec::new();
+    let mut sizes = vec![12i64, 60, 252, 1020];
+    if thorough {
+        sizes.push(8188);
+    }
+    for &n in &sizes {
+        for cap in [8i64, 0, n + 4] {
+            for look in [K_GET, K_FLE] {
+                let mut c = Case::new(prop, "key");
+                c.set("coll", "tree").set("cap", cap).set("U", 8);
+                c.ops.push(RawOp::new(K_BULK, &[n + 3, 3, 7]));
+                for i in 0..n {
+                    c.ops.push(RawOp::new(K_ADV, &[1]));
+                    // probe argument = key + 1
+                    c.ops.push(RawOp::new(look, &[i + 1]));
+                }
+                if export {
+                    c.ops.push(RawOp::new(K_EXPORT, &[0]));
+                }
+                v.push(c);
+            }
+        }
+    }
+    v
+}
+
 fn export_ladder(prop: &str, thorough: bool) -> Vec<Case> {
     let mut sizes: Vec<i64> = (0..=64).collect();
-    sizes.extend([100, 1000, 10_000, 100_000]);
+    // 8m-1 entries fill an arena that grows in steps of 8 exactly
+    sizes.extend([100, 127, 255, 1000, 1023, 4095, 10_000, 32_767, 100_000]);
     if thorough {
         sizes.push(1_000_000);
     }
     let mut v = Vec::new();
     for &n in &sizes {
         for order in 0..3 {
-            for pattern in 0..3 {
+            for pattern in [0i64, 1, 2, 6] {
                 if n > 64 && pattern == 2 && order == 1 {
+                    continue;
+                }
+                if pattern == 6 && (n < 60 || (n + 1) % 8 != 0) {
                     continue;
                 }
                 for coll in ["tree", "list"] {
